@@ -12,6 +12,9 @@ CHECKS = {
  "C02": ("explicit-state exploration of scalar operations (alphabet x alias partitions x closure depth 2, all Sum/Product vectors of length 0..4 with every pointer pattern, non-canonical bands) against a math/big model",
          "Exhaustive small-scope model checking: every Scalar operation on every ordered pair of a code-derived ~480-value alphabet (incl. operand pairs steered so that the unreduced sum/difference/Montgomery product lands in [n,2^256)), under every receiver/argument alias partition, closed under a second step; Sum/Product for every vector length 0..4 over 7 values with every repeated-pointer pattern and receiver placement; decoders on bands at both ends of [n,2^256) and all Hamming-weight<=2 offsets with receiver-unchanged checks through the limb hook; half-order boundary and the halfNSat constant.",
          "Trusted: Go toolchain, math/big, /verif/ref. The 2^128-sized non-canonical window cannot be exhausted (bands + structured values; stated in evidence).", "DESIGN.md §6 C02"),
+ "C03": ("explicit-state search over (abstract point, projective representative) states: all ordered pairs x group operations x alias partitions, representation drift to depth 2, against affine chord-and-tangent arithmetic",
+         "Explicit-state exploration: states are exact projective representatives (several Z per abstract point, built through the unchecked-constructor hook, plus representatives that arise from Add/Subtract/Double chains); every ordered pair of states is put through Add, Subtract, ConditionalSelect and the raw addComplete/addMixed formulas under all 5 alias partitions, every state through Double/Negate/Set/ConditionalNegate/rescale; each result is validated from raw coordinates (on curve, not (0,0,0), identity shape), compared with the affine reference sum, and all observers (Equal both ways, IsIdentity, IsYOdd, three encodings) are required to depend on the abstract value only. Exceptional relations (inf, P=Q, P=-Q, same-y endomorphism images) are populated classes.",
+         "Trusted: Go toolchain, math/big, /verif/ref affine arithmetic. Completeness of the formulas for field values outside the alphabet is a theorem (Renes-Costello-Batina), not enumerated; drift capped per abstract point (cap reported).", "DESIGN.md §6 C03"),
 }
 
 PENDING_REASON = "check under construction in this round; not yet claimed (see DESIGN.md §6 for the planned bounded-exhaustive check)"
